@@ -185,7 +185,7 @@ func BuildUnit(P *Program, key string, profile string, prop string) (*Unit, erro
 				lbl = fmt.Sprint(k)
 			}
 			for ri, r := range x.rets {
-				pr := x.envAt(r.st, nil, nil, true)
+				pr := x.envAt(r.st, r.blk, nil, true) // locals visible at the return site may be named
 				pr.pkg = e.pkgOf(fc)
 				for i := 0; i < res.Len(); i++ {
 					name := ""
